@@ -550,6 +550,27 @@ func runC18(c *mc.Ctx) {
 			full := bytes.Repeat([]byte{0x55}, L)
 			xs = append(xs, c18Case{XOuts: []c18XOut{{7, mc.Hex(full)}, {7, mc.Hex(full[:L-1])}}}, c18Case{XOuts: []c18XOut{{7, mc.Hex(full[:L-1])}, {7, mc.Hex(full)}}})
 		}
+		// very large transactions (a different code path may be taken above some size): n inputs spread
+		// over two txids with indexes 0..n/2 (so indexes >= 256 and >= 65536 share a txid), n outputs
+		// with amounts and scripts in a deterministic shuffled order
+		for _, n := range mc.Pick(c, []int{1024, 1500, 4100}, []int{1024, 1500, 4100, 70000}) {
+			var cas c18Case
+			h1, h2 := mc.Hex(bytes.Repeat([]byte{0x11}, 32)), mc.Hex(bytes.Repeat([]byte{0x12}, 32))
+			for i := 0; i < n; i++ {
+				j := (i*7919 + 13) % n // a permutation of 0..n-1 (7919 is prime, n not a multiple of it)
+				h := h1
+				if j%2 == 1 {
+					h = h2
+				}
+				idx := uint32(j / 2)
+				if n >= 70000 && j%5 == 0 {
+					idx += 65536
+				}
+				cas.XIns = append(cas.XIns, c18XIn{h, idx})
+				cas.XOuts = append(cas.XOuts, c18XOut{int64(j % 7), mc.Hex([]byte{byte(j >> 8), byte(j)})})
+			}
+			xs = append(xs, cas)
+		}
 		c.Space("single-position differences (txid byte, index bit, amount bit, script byte, script prefix)", int64(len(xs)))
 		c.ParFor(int64(len(xs)), func(w *mc.W, i int64) {
 			w.State()
